@@ -119,7 +119,12 @@ func allocBounded(pr *Prog, at *ssa.BasicBlock, v ssa.Value, depth int, seen map
 			}
 			return true
 		}
+		if fv, isF := x.X.(*ssa.FreeVar); isF && x.Op == token.MUL {
+			return capturedAll(fv, func(at *ssa.BasicBlock, v ssa.Value) bool { return allocBounded(pr, at, v, depth, seen) })
+		}
 		return false
+	case *ssa.FreeVar:
+		return capturedAll(x, func(at *ssa.BasicBlock, v ssa.Value) bool { return allocBounded(pr, at, v, depth, seen) })
 	case *ssa.Parameter:
 		// every package is internal to the module: the call sites in the program are all there are
 		f := x.Parent()
@@ -323,7 +328,12 @@ func nonNegative(pr *Prog, at *ssa.BasicBlock, v ssa.Value, depth int, seen map[
 			}
 			return true
 		}
+		if fv, isF := x.X.(*ssa.FreeVar); isF && x.Op == token.MUL {
+			return capturedAll(fv, func(at *ssa.BasicBlock, v ssa.Value) bool { return nonNegative(pr, at, v, depth, seen) })
+		}
 		return false
+	case *ssa.FreeVar:
+		return capturedAll(x, func(at *ssa.BasicBlock, v ssa.Value) bool { return nonNegative(pr, at, v, depth, seen) })
 	case *ssa.Call:
 		if b, ok := x.Call.Value.(*ssa.Builtin); ok {
 			switch b.Name() {
@@ -409,4 +419,51 @@ func lastIf(b *ssa.BasicBlock) (*ssa.If, bool) {
 	}
 	iff, ok := b.Instrs[len(b.Instrs)-1].(*ssa.If)
 	return iff, ok
+}
+
+// capturedAll: a captured variable satisfies pred when every value the enclosing function binds to
+// it does, judged where the closure is created (a variable captured by reference: every value stored
+// into its cell by the enclosing function, provided the closure itself does not write it).
+func capturedAll(fv *ssa.FreeVar, pred func(at *ssa.BasicBlock, v ssa.Value) bool) bool {
+	fn := fv.Parent()
+	idx := -1
+	for i, x := range fn.FreeVars {
+		if x == fv {
+			idx = i
+		}
+	}
+	sites := closureSites(fn)
+	if idx < 0 || len(sites) == 0 {
+		return false
+	}
+	if fv.Referrers() != nil {
+		for _, u := range *fv.Referrers() {
+			if st, ok := u.(*ssa.Store); ok && st.Addr == ssa.Value(fv) {
+				return false
+			}
+		}
+	}
+	for _, site := range sites {
+		mc, ok := site.(*ssa.MakeClosure)
+		if !ok || idx >= len(mc.Bindings) {
+			return false
+		}
+		bv := mc.Bindings[idx]
+		if al, isA := bv.(*ssa.Alloc); isA {
+			sts := storesTo(al)
+			if len(sts) == 0 {
+				return false
+			}
+			for _, st := range sts {
+				if !pred(mc.Block(), st.Val) {
+					return false
+				}
+			}
+			continue
+		}
+		if !pred(mc.Block(), bv) {
+			return false
+		}
+	}
+	return true
 }
